@@ -192,10 +192,31 @@ pub fn run(args: &Args, rec: &mut Recorder) {
             }
             return None;
         }
-        let h = gen_hostile(&g, &seeds, rng);
+        let mut h = gen_hostile(&g, &seeds, rng);
         let strict = rng.coin();
         let spec_kind = *rng.pick(&["none", "none", "valid", "invalid"]);
         let entry = *rng.pick(&["string", "string", "fragment", "file"]);
+        if entry == "file" && rng.chance(1, 3) {
+            // files go through the encoding detection: byte order marks of every kind in front of
+            // content that may or may not be valid in that encoding
+            let bom: &[u8] = *rng.pick(&[
+                &[0xEF, 0xBB, 0xBF][..],
+                &[0xFF, 0xFE][..],
+                &[0xFE, 0xFF][..],
+                &[0xFF, 0xFE, 0x00, 0x00][..],
+                &[0x00, 0x00, 0xFE, 0xFF][..],
+                &[0xEF, 0xBB][..],
+            ]);
+            let mut b = bom.to_vec();
+            b.extend_from_slice(&h.bytes);
+            if rng.coin() {
+                // a byte that is not valid UTF-8 where it stands
+                let at = rng.urange(bom.len(), b.len());
+                b.insert(at, *rng.pick(&[0xB0u8, 0xFF, 0xC3, 0xE2, 0x80, 0xF5]));
+            }
+            h.bytes = b;
+            rec.bump("file_inputs_with_byte_order_mark");
+        }
         if !h.bytes.is_empty() {
             rec.nontrivial(&h.bytes);
         }
